@@ -715,7 +715,7 @@ def r6(chk, prog):
                   "ISO C contract, including the white space they skip themselves)")
     PEc = _mk_parse_pe()
     texts = []
-    for ln in range(0, 5):
+    for ln in range(0, 6 if chk.tier == "thorough" else 5):
         texts += [bytes(t) for t in product(b" \t-+01a", repeat=ln)]
     for core in ("9223372036854775807", "9223372036854775808", "18446744073709551615", "18446744073709551616", "99999999999999999999"):
         for pre in ("", "-", " ", " -", "\t-", "+", "\n"):
